@@ -109,8 +109,10 @@ func (h *hist) witness() map[string]any {
 }
 
 func (h *hist) violate(sig, format string, a ...any) {
-	h.failed = true
-	h.r.Violation(sig, fmt.Sprintf("history seed %d: ", h.seed)+fmt.Sprintf(format, a...), h.witness())
+	// a listed known finding is reported once and does not end the history
+	if h.r.Violation(sig, fmt.Sprintf("history seed %d: ", h.seed)+fmt.Sprintf(format, a...), h.witness()) {
+		h.failed = true
+	}
 }
 
 func (h *hist) newFact() *fact {
